@@ -52,6 +52,14 @@ def shard(ctx, arg):
     for k in range(count):
         data, w, items, consts = build(rng)
         dx = dex.DEX(data)
+        if rng.random() < 0.3:
+            # interaction with another feature: the python export (Session(export_ipython=True) does this) keeps per-class attributes that the
+            # rename hooks try to update as well
+            try:
+                dx.create_python_export()
+                ctx.count("histories_with_python_export")
+            except Exception as e:
+                ctx.count("python_export_raises_" + type(e).__name__)
         # bind real objects. Half of the histories bind by pool INDEX without asking any item for its name first, so that the first
         # name query of an item can come after a rename of another item (lazily resolved names must not pick up foreign hooks)
         lazy = rng.random() < 0.5
@@ -205,7 +213,7 @@ def run(ctx):
                 "operands), reload() on random items and queries; after EVERY step get_name() of all items and get_string() of all const-string instructions are compared with a "
                 "dictionary model of current names. distinct non-trivial = distinct (length class, #items, shared names?, #renames, reload used?)")
     ctx.assumptions = ["a class rename may legitimately change descriptors that mention the class; only names are compared"]
-    n = 320 if ctx.quick else 500000
+    n = 1600 if ctx.quick else 500000
     ctx.run_shards(MOD, "shard", [[i, n // 16] for i in range(16)], timeout=3000)
     ctx.require_counter("history_steps", 500)
     ctx.require_counter("names_compared", 2000)
